@@ -404,3 +404,124 @@ type allowW struct{ h http.Header }
 func (w *allowW) Header() http.Header         { return w.h }
 func (w *allowW) Write(b []byte) (int, error) { return len(b), nil }
 func (w *allowW) WriteHeader(int)             {}
+
+// TruncateStorm: emptying or removing the routes of one verb never disturbs requests for the others. A writer keeps
+// truncating, deleting and re-registering the routes of some custom verbs - in committed, aborted and failing
+// transactions, with the truncation as first or later write - while readers serve requests for verbs that are never
+// touched (always 200), trigger the 405 / OPTIONS scans over all verbs, iterate methods on fresh and on held
+// snapshots. No request may panic or miss a route that no committed state lacks.
+func TruncateStorm(run *kit.Run) {
+	rounds := run.Pick(4, 40)
+	var served atomic.Int64
+	var bad atomic.Pointer[string]
+	note := func(format string, a ...any) {
+		m := fmt.Sprintf(format, a...)
+		bad.CompareAndSwap(nil, &m)
+	}
+	for round := 0; round < rounds && bad.Load() == nil; round++ {
+		f, err := fox.New(fox.WithNoMethod(true), fox.WithAutoOptions(true))
+		if err != nil {
+			run.Inconclusive("fox.New: %v", err)
+			return
+		}
+		h := func(c fox.Context) { c.Writer().WriteHeader(200) }
+		stable := []string{"GET", "KEEP", "ZED"} // never written to after this point
+		volatile := []string{"BAR", "MID", "TRACE"}
+		for _, m := range []string{"GET", "BAR", "KEEP", "MID", "TRACE", "ZED"} {
+			f.MustHandle(m, "/v/{id}", h)
+			f.MustHandle(m, "/w", h)
+		}
+		var stop atomic.Bool
+		var wg sync.WaitGroup
+		errAbort := fmt.Errorf("abort")
+		wg.Add(1)
+		go func() {
+			defer wg.Done()
+			defer stop.Store(true)
+			for i := 0; i < 200 && bad.Load() == nil; i++ {
+				m := volatile[i%len(volatile)]
+				m2 := volatile[(i+1)%len(volatile)]
+				fail := i%3 == 1
+				_ = f.Updates(func(t *fox.Txn) error {
+					switch i % 4 {
+					case 0:
+						_ = t.Truncate(m)
+					case 1:
+						_, _ = t.Handle("GET", fmt.Sprintf("/tmp/%d", i), h)
+						_ = t.Truncate(m, m2)
+					case 2:
+						_, _ = t.Delete(m, "/v/{id}")
+						_, _ = t.Delete(m, "/w")
+					default:
+						_ = t.Truncate(m2)
+						_, _ = t.Handle(m, "/again", h)
+					}
+					if fail {
+						return errAbort
+					}
+					return nil
+				})
+				// put everything back (committed)
+				_ = f.Updates(func(t *fox.Txn) error {
+					for _, v := range volatile {
+						if !t.Has(v, "/v/{id}") {
+							_, _ = t.Handle(v, "/v/{id}", h)
+						}
+						if !t.Has(v, "/w") {
+							_, _ = t.Handle(v, "/w", h)
+						}
+					}
+					return nil
+				})
+			}
+		}()
+		for rd := 0; rd < 6; rd++ {
+			wg.Add(1)
+			go func(rd int) {
+				defer wg.Done()
+				defer func() {
+					if p := recover(); p != nil {
+						note("a reader panicked while another verb's routes were truncated / removed: %v", p)
+						stop.Store(true)
+					}
+				}()
+				held := f.Iter()
+				for i := 0; !stop.Load(); i++ {
+					m := stable[(i+rd)%len(stable)]
+					w := &flipW{h: http.Header{}}
+					f.ServeHTTP(w, &http.Request{Method: m, URL: &url.URL{Path: "/v/7"}, Header: http.Header{}, Proto: "HTTP/1.1", ProtoMajor: 1, ProtoMinor: 1})
+					served.Add(1)
+					if w.status != 200 {
+						note("%s /v/7 answered %d while only other verbs were being truncated: its route is in every committed state", m, w.status)
+						stop.Store(true)
+						return
+					}
+					// the scans over all verbs
+					w2 := &flipW{h: http.Header{}}
+					f.ServeHTTP(w2, &http.Request{Method: []string{"NOPE", "OPTIONS"}[i%2], URL: &url.URL{Path: "/w"}, Header: http.Header{}, Proto: "HTTP/1.1", ProtoMajor: 1, ProtoMinor: 1})
+					if al := w2.h.Get("Allow"); !strings.Contains(al, "GET") || !strings.Contains(al, "KEEP") || !strings.Contains(al, "ZED") {
+						note("the Allow header %q of a %d answer for /w lacks a verb whose route is in every committed state", al, w2.status)
+						stop.Store(true)
+						return
+					}
+					n := 0
+					for range f.Iter().Methods() {
+						n++
+					}
+					for range held.Methods() {
+						n++
+					}
+					for range held.Routes(func(y func(string) bool) { _ = y("ZED") && y("KEEP") }, "/w") {
+						n++
+					}
+				}
+			}(rd)
+		}
+		wg.Wait()
+		run.Case(fmt.Sprintf("truncate-storm|%d", round), true)
+	}
+	if m := bad.Load(); m != nil {
+		run.Violate("truncate-storm", *m, nil)
+	}
+	run.Count("truncate_storm_requests", served.Load())
+}
